@@ -68,6 +68,138 @@ fn probe_next_classifies() {
     kani::cover!(matches!(r, ProbeResult::PossibleHit(_)), "possible hit reachable");
 }
 
+// ---- recover(): effect order of WAL replay (C04 / C14) -------------------------------------------
+const HT_FD: i32 = 5;
+const WAL_FD: i32 = 7;
+static mut HT_DIRTY: bool = false; // an ht write has not been followed by an ht fsync yet
+static mut HT_WRITES: u8 = 0;
+static mut WAL_TRUNCATED: bool = false;
+static mut TRUNCATED_WHILE_DIRTY: bool = false;
+static mut WRITE_AFTER_TRUNCATE: bool = false;
+static mut INJECTED: bool = false; // some I/O operation was made to fail
+static mut STEP: u8 = 0;
+static mut WAL_SEQN: u32 = 0;
+
+fn inject() -> std::io::Result<()> {
+    if kani::any() {
+        unsafe { INJECTED = true; }
+        return Err(std::io::Error::from_raw_os_error(5));
+    }
+    Ok(())
+}
+fn rstub_write_all_at(f: &File, _buf: &[u8], _offset: u64) -> std::io::Result<()> {
+    use std::os::fd::AsRawFd;
+    assert!(f.as_raw_fd() == HT_FD, "recover writes pages only to the hash-table file");
+    unsafe {
+        if WAL_TRUNCATED { WRITE_AFTER_TRUNCATE = true; }
+        HT_WRITES += 1;
+        HT_DIRTY = true;
+    }
+    inject()
+}
+fn rstub_sync_all(f: &File) -> std::io::Result<()> {
+    use std::os::fd::AsRawFd;
+    inject()?;
+    if f.as_raw_fd() == HT_FD {
+        unsafe { HT_DIRTY = false; }
+    }
+    Ok(())
+}
+fn rstub_seek<'a>(_f: &mut &'a File, _pos: std::io::SeekFrom) -> std::io::Result<u64>
+where
+    'a: 'a,
+{
+    inject().map(|_| 0)
+}
+/// writeout::truncate_wal is proved on its own (k1_wal: set_len 0, seek 0, fsync iff do_sync).
+fn rstub_truncate_wal(f: &File, _do_sync: bool) -> std::io::Result<()> {
+    use std::os::fd::AsRawFd;
+    assert!(f.as_raw_fd() == WAL_FD);
+    unsafe {
+        WAL_TRUNCATED = true;
+        if HT_DIRTY { TRUNCATED_WHILE_DIRTY = true; }
+    }
+    inject()
+}
+fn rstub_wal_new(_pool: &PagePool, _fd: &File) -> anyhow::Result<crate::bitbox::wal::WalBlobReader> {
+    Ok(wal::verif_kani::kani_reader(unsafe { WAL_SEQN }))
+}
+/// up to two entries of either kind, then the end marker
+fn rstub_read_entry(_r: &mut crate::bitbox::wal::WalBlobReader) -> anyhow::Result<Option<wal::WalEntry>> {
+    let step = unsafe { STEP };
+    unsafe { STEP = step + 1; }
+    if step >= 2 || kani::any() {
+        return Ok(None);
+    }
+    let bucket: u64 = kani::any();
+    kani::assume(bucket < 4);
+    if kani::any() {
+        Ok(Some(wal::WalEntry::Clear { bucket }))
+    } else {
+        Ok(Some(wal::WalEntry::Update {
+            page_id: kani::any(),
+            page_diff: crate::page_diff::PageDiff::default(),
+            changed_nodes: Vec::new(),
+            elided_children: crate::merkle::ElidedChildren::from_bytes(kani::any()),
+            bucket,
+        }))
+    }
+}
+fn rstub_read_page(pool: &PagePool, _fd: &File, _pn: u64) -> std::io::Result<crate::io::FatPage> {
+    inject()?;
+    Ok(crate::io::page_pool::verif_kani::kani_fat_page(pool))
+}
+fn rstub_hash_raw(_page_id: [u8; 32], _seed: &[u8; 16]) -> u64 {
+    kani::any()
+}
+fn rstub_unpack(_d: &crate::page_diff::PageDiff, _nodes: &[[u8; 32]], _page: &mut [u8]) {}
+
+/// recover() for every WAL of up to two entries (any mix of Clear / Update, any buckets of a
+/// 4-bucket map), every outcome of the sequence-number comparison and every single or multiple
+/// I/O failure:
+///  * [C04] the WAL is truncated only when every hash-table write issued by the replay has been
+///    followed by an fsync of the hash-table file, and nothing is written to it afterwards;
+///  * [C04] a WAL of another sync is discarded without touching the hash table;
+///  * [C14] Ok is returned only if no I/O operation failed.
+#[kani::proof]
+#[kani::unwind(5)]
+#[kani::stub(std::os::unix::fs::FileExt::write_all_at, rstub_write_all_at)]
+#[kani::stub(std::fs::File::sync_all, rstub_sync_all)]
+#[kani::stub(<&std::fs::File as std::io::Seek>::seek, rstub_seek)]
+#[kani::stub(writeout::truncate_wal, rstub_truncate_wal)]
+#[kani::stub(crate::bitbox::wal::WalBlobReader::new, rstub_wal_new)]
+#[kani::stub(crate::bitbox::wal::WalBlobReader::read_entry, rstub_read_entry)]
+#[kani::stub(crate::io::read_page, rstub_read_page)]
+#[kani::stub(hash_raw_page_id, rstub_hash_raw)]
+#[kani::stub(crate::page_diff::PageDiff::unpack_changed_nodes, rstub_unpack)]
+#[kani::stub(crate::io::PagePool::alloc, crate::io::page_pool::verif_kani::stub_alloc)]
+#[kani::stub(crate::io::PagePool::dealloc, crate::io::page_pool::verif_kani::stub_dealloc)]
+fn recover_syncs_ht_before_truncating_wal() {
+    let ht = crate::io::verif_kani::kani_file(HT_FD);
+    let walf = crate::io::verif_kani::kani_file(WAL_FD);
+    let pool = crate::io::page_pool::verif_kani::kani_page_pool();
+    let offsets = ht_file::verif_kani::kani_offsets(1);
+    let mut map = meta_map::verif_kani::meta_map_one_page(4);
+    let seed: [u8; 16] = kani::any();
+    let sync_seqn: u32 = kani::any();
+    unsafe { WAL_SEQN = kani::any(); }
+    let same = unsafe { WAL_SEQN } == sync_seqn;
+    let r = recover(sync_seqn, &ht, &walf, &pool, &offsets, &mut map, seed);
+    unsafe {
+        assert!(!TRUNCATED_WHILE_DIRTY, "WAL truncated while replayed hash-table pages were not fsynced");
+        assert!(!WRITE_AFTER_TRUNCATE, "hash-table page written after the WAL was discarded");
+        if !same {
+            assert!(HT_WRITES == 0, "a WAL of another sync must not be applied");
+        }
+        if r.is_ok() {
+            assert!(!INJECTED, "an I/O failure was swallowed");
+            assert!(WAL_TRUNCATED);
+        }
+        kani::cover!(r.is_ok() && same && HT_WRITES >= 2, "replay with writes reachable");
+        kani::cover!(r.is_ok() && !same, "stale WAL path reachable");
+    }
+}
+
 #[cfg(test)]
 include!("/verif/.build/playback/bitbox_mod.inc");
 
